@@ -1,6 +1,7 @@
 package checks
 
 import (
+	"context"
 	"errors"
 	"fmt"
 
@@ -15,11 +16,20 @@ import (
 // C03 — a successfully returned root is complete and durable in the store.
 
 type C03Attempt struct {
+	// CancelAt: the context given to MakeRoot is cancelled before the call (0) or when the k-th Store call
+	// arrives (k>0); -1 / absent field value 0 with Cancel=false = never
+	Cancel   bool       `json:"cancel,omitempty"`
+	CancelAt int        `json:"cancel_at,omitempty"`
 	Fates []env.Fate `json:"fates,omitempty"` // by arrival index; missing = plain completion
+	// FailAbove > 0: the store rejects a call that arrives while more than this many calls are in flight
+	FailAbove int `json:"fail_above,omitempty"`
 	Ops   []core.Op  `json:"ops,omitempty"`   // operations applied after this attempt (the tree must stay usable)
 }
 
 type C03Case struct {
+	// Big > 0: instead of the base history, a tree of Big consecutive int keys is built (many dirty nodes:
+	// more than the 40 writes the flush keeps in flight)
+	Big       int          `json:"big,omitempty"`
 	Cfg       core.Config  `json:"cfg"`
 	Base      []core.Op    `json:"base"`            // history (may persist/reload: creates a clean region)
 	Attempts  []C03Attempt `json:"attempts"`        // successive MakeRoot calls under fate plans; a final fault-free attempt is always added
@@ -65,6 +75,13 @@ func genC03(t *rapid.T, tier string) C03Case {
 	na := rapid.IntRange(1, 3).Draw(t, "nattempts")
 	for i := 0; i < na; i++ {
 		a := C03Attempt{Fates: genFates(t, rapid.IntRange(0, 30).Draw(t, "nfates"), true)}
+		if rapid.IntRange(0, 7).Draw(t, "throttle") == 0 {
+			a.FailAbove = rapid.SampledFrom([]int{1, 2, 5, 40}).Draw(t, "failabove")
+		}
+		if rapid.IntRange(0, 5).Draw(t, "cancel") == 0 {
+			a.Cancel = true
+			a.CancelAt = rapid.IntRange(0, 6).Draw(t, "cancelat")
+		}
 		a.Ops = core.GenProgram(t, core.OpWeights{core.OpInsertNew: 3, core.OpDelete: 3, core.OpUpdate: 2, core.OpGet: 1, core.OpIter: 1}, 4, 1)
 		c.Attempts = append(c.Attempts, a)
 	}
@@ -74,9 +91,10 @@ func genC03(t *rapid.T, tier string) C03Case {
 }
 
 type c03World struct {
-	w    *core.World
-	gate *env.GatedStore
-	t    *core.Tree
+	w         *core.World
+	gate      *env.GatedStore
+	t         *core.Tree
+	failAbove int
 }
 
 func c03Build(c C03Case) (*c03World, bool) {
@@ -89,6 +107,18 @@ func c03Build(c C03Case) (*c03World, bool) {
 		return nil, false
 	}
 	mach := core.AdoptMachine(&core.Machine{W: w, Slots: []*core.Tree{{M: m0, Model: core.Model{}}}})
+	if c.Big > 0 {
+		w.Pool = make([]interface{}, c.Big+8)
+		for i := range w.Pool {
+			w.Pool[i] = i
+		}
+		for i := 0; i < c.Big; i++ {
+			if err := w.Insert(mach.Slots[0], i, i%4); err != nil {
+				return nil, false
+			}
+		}
+		return &c03World{w: w, gate: gate, t: mach.Slots[0]}, true
+	}
 	// reloads inside the base history must also go through the gate
 	for _, op := range c.Base {
 		op.Slot = 0
@@ -113,10 +143,28 @@ func c03Build(c C03Case) (*c03World, bool) {
 }
 
 // attempt runs one MakeRoot under a fate plan and applies the oracle.
-func (cw *c03World) attempt(fates []env.Fate, desc string) (root *mast.Root, failed bool, reordered bool, err error) {
+func (cw *c03World) attempt(fates []env.Fate, desc string, cancel ...int) (root *mast.Root, failed bool, reordered bool, err error) {
 	cw.gate.Arm(fates)
+	cw.gate.FailAbove = cw.failAbove
+	defer func() { cw.gate.FailAbove = 0 }()
+	ctx, cancelFn := context.WithCancel(context.Background())
+	defer cancelFn()
+	cw.gate.OnArrival = nil
+	if len(cancel) > 0 {
+		if cancel[0] <= 0 {
+			cancelFn()
+		} else {
+			k := cancel[0]
+			cw.gate.OnArrival = func(idx int) {
+				if idx+1 == k {
+					cancelFn()
+				}
+			}
+		}
+	}
 	var mkErr error
-	perr := core.Safely("MakeRoot", func() error { root, mkErr = cw.t.M.MakeRoot(core.Ctx); return nil })
+	perr := core.Safely("MakeRoot", func() error { root, mkErr = cw.t.M.MakeRoot(ctx); return nil })
+	cw.gate.OnArrival = nil
 	inflight := cw.gate.InFlight()
 	cw.gate.Release()
 	if perr != nil {
@@ -133,6 +181,10 @@ func (cw *c03World) attempt(fates []env.Fate, desc string) (root *mast.Root, fai
 		}
 	}
 	if mkErr != nil {
+		if cw.gate.Failed == 0 && len(cancel) > 0 {
+			// failing because the caller's context was cancelled is legitimate; the tree must stay usable
+			return nil, true, reordered, nil
+		}
 		if cw.gate.Failed == 0 {
 			// an error without an injected fault: not this property's statement (fault-free success is C01's)
 			return nil, true, reordered, errAbort
@@ -189,7 +241,14 @@ func runC03(c C03Case, o *run.Obs) error {
 	maxInflight := 0
 	for ai, a := range attempts {
 		desc := fmt.Sprintf("[%s] attempt %d (%d fates)", c.Cfg, ai, len(a.Fates))
-		_, failed, reordered, err := cw.attempt(a.Fates, desc)
+		var cancelArg []int
+		if a.Cancel {
+			cancelArg = []int{a.CancelAt}
+			desc += fmt.Sprintf(", context cancelled at Store arrival %d", a.CancelAt)
+		}
+		cw.failAbove = a.FailAbove
+		_, failed, reordered, err := cw.attempt(a.Fates, desc, cancelArg...)
+		cw.failAbove = 0
 		if err == errAbort {
 			o.Label("aborted:base-failure")
 			return nil
@@ -304,6 +363,44 @@ func runC03(c C03Case, o *run.Obs) error {
 	return nil
 }
 
+// enumC03: flushes with far more than 40 dirty nodes whose first 40 writes are held in flight
+// (stragglers) while a later arrival fails: the flush's 40-slot gate is saturated.
+func enumC03(tier string, shard, nshards int, yield func(C03Case) bool) (bool, string) {
+	sizes := []int{150, 400}
+	if tier == "thorough" {
+		sizes = []int{150, 400, 1500}
+	}
+	i := 0
+	for _, bf := range []uint{2, 4} {
+		for _, n := range sizes {
+			for _, failAt := range []int{40, 41, 44, 60, -1, -2} {
+				for _, hold := range []int{40, 45} {
+					i++
+					if i%nshards != shard {
+						continue
+					}
+					fates := make([]env.Fate, 70)
+					for j := 0; j < hold && j < len(fates); j++ {
+						fates[j].Straggle = true
+					}
+					if failAt >= 0 {
+						fates[failAt].Fail = true
+					}
+					att := C03Attempt{Fates: fates}
+					if failAt == -2 {
+						att.FailAbove = 40 // a throttling store: more than 40 concurrent requests are rejected
+					}
+					cfg := core.Config{BF: bf, Format: ref.FormatBinary, Key: core.KInt, Val: core.VInt, Cache: "none", Marshaler: "json"}
+					if !yield(C03Case{Big: n, Cfg: cfg, Attempts: []C03Attempt{att}}) {
+						return false, ""
+					}
+				}
+			}
+		}
+	}
+	return false, "saturating flushes: trees of 150-400 (thorough 1500) int keys at bf 2 and 4 (50-400 dirty nodes), the first 40 or 45 arriving Store calls held in flight, a failure at arrival 40/41/44/60, none, or a store that rejects any call arriving while more than 40 are in flight; then a fault-free retry"
+}
+
 func init() {
 	run.Register(run.Prop[C03Case]{
 		ID:    "C03",
@@ -313,5 +410,6 @@ func init() {
 		Assumptions: []string{"delays only shape the schedule; no timing enters a verdict (the 5 ms straggler guard only bounds how long correct code is made to wait)", "completion orders are sampled, not enumerated"},
 		Gen:         genC03,
 		Run:         runC03,
+		Enumerate:   enumC03,
 	})
 }
